@@ -210,3 +210,11 @@ func (c *Classifier) VerifMatchedRanges(in []byte) map[string][][5]int {
 	}
 	return out
 }
+
+// VerifTraceTableSize: number of entries of the installed trace configuration's license table (tracing only observes).
+func (c *Classifier) VerifTraceTableSize() int {
+	if c.tc == nil {
+		return -1
+	}
+	return len(c.tc.traceLicenses)
+}
